@@ -97,6 +97,9 @@ func pack(vals []Value) Value {
 }
 
 func (ex *Exec) callModule(fr *FuncRef, args []Value, at ast.Node) Value {
+	if ex.trace != nil && !ex.forceInline {
+		ex.trace = App("enter:"+fr.QName(), STr, ex.trace)
+	}
 	fc := ex.specs.Funcs[fr.QName()]
 	if fc != nil && !ex.forceInline && !(fr.Pkg == ex.fn.Pkg && fr.Key == ex.fn.Key && len(ex.frames) == 0) {
 		return ex.applyContract(fc, fr, args, at)
@@ -379,11 +382,11 @@ func (ex *Exec) evalAppend(e *ast.CallExpr) Value {
 			add = append(add, src.Obj.Cells[src.Off+i])
 		}
 	} else {
-		if s.Abs != nil {
-			ex.unsupported("append to abstract slice at %s", ex.where(e))
-		}
 		for _, a := range e.Args[1:] {
 			add = append(add, ex.eval(a))
+		}
+		if s.Abs != nil {
+			return ex.appendAbsCells(s, add, e)
 		}
 	}
 	if len(add) == 0 {
